@@ -640,4 +640,153 @@ def columnRoundTrips (t : TName) (c : Desc) : Bool :=
       | .error _ => false
       | .ok d => d.ty == c.ty && d.precision == c.precision && d.scale == c.scale && d.elem == c.elem)
 
+/-! ## sessions: several frames over shared schemas that are edited between reads (dataframe.py:372-427)
+
+A `DataFrame` holds a reference to the `RelationSchema` it was made with (`self._schema = schema`,
+dataframe.py:89; `head`/`slice`/`query`/`distinct` hand the same object on), so the schema can be edited while
+frames over it are alive: `schema.columns[i] = FlatColumn(name=<the same>, type=<another name>)`, or the type
+attributes of the column object edited in place.  `description` is a property: whether it is computed from the
+schema on every read or an earlier answer is kept is read from the source (`Gen.TypeName.descRead`). -/
+
+/-- column `i` redeclared: its five type attributes replaced, name and aliases kept. -/
+def setDescAt : List Col → Nat → Desc → List Col
+  | [], _, _ => []
+  | c :: cs, 0, d => { c with desc := d } :: cs
+  | c :: cs, i + 1, d => c :: setDescAt cs i d
+
+/-- column `i` of schema `j` redeclared. -/
+def setSchemaAt : List (List Col) → Nat → Nat → Desc → List (List Col)
+  | [], _, _, _ => []
+  | s :: ss, 0, i, d => setDescAt s i d :: ss
+  | s :: ss, j + 1, i, d => s :: setSchemaAt ss j i d
+
+/-- column `i` renamed (`column.name = n`, or replaced by a column of another name): the type attributes stay. -/
+def setColNameAt : List Col → Nat → Str → List Col
+  | [], _, _ => []
+  | c :: cs, 0, n => { c with name := n } :: cs
+  | c :: cs, i + 1, n => c :: setColNameAt cs i n
+
+/-- column `i` of schema `j` renamed. -/
+def setSchemaNameAt : List (List Col) → Nat → Nat → Str → List (List Col)
+  | [], _, _, _ => []
+  | s :: ss, 0, i, n => setColNameAt s i n :: ss
+  | s :: ss, j + 1, i, n => s :: setSchemaNameAt ss j i n
+
+/-- one step of a session. -/
+inductive SOp where
+  /-- `DataFrame(rows=[], schema=S_j)` (or a frame derived from a frame over `S_j`): the next frame number -/
+  | frame (j : Nat)
+  /-- `frame_k.description` -/
+  | read (k : Nat)
+  /-- `S_j.columns[i]` redeclared with the type attributes `d` -/
+  | redeclare (j i : Nat) (d : Desc)
+  /-- `S_j.columns[i]` renamed -/
+  | rename (j i : Nat) (n : Str)
+  deriving Repr, DecidableEq
+
+/-- does the step leave the names of all columns as they are? -/
+def SOp.keepsNames : SOp → Bool
+  | .rename _ _ _ => false
+  | _ => true
+
+/-- `description` iterating over a tuple of names (`for index, column in enumerate(self.column_names)`,
+dataframe.py:396 — the tuple may be one `column_names` kept from an earlier call): entry `i` bears the `i`-th
+name and is built from the column found by the extracted lookup. -/
+def describeNames (how : Lookup) (all : List Col) : Nat → List Str → Option (List Entry)
+  | _, [] => some []
+  | i, n :: ns =>
+    match ((match how with
+            | .byPosition => all[i]?
+            | .byName => findColumn all n).bind (fun cd => entryOf n cd.desc)),
+          describeNames how all (i + 1) ns with
+    | some e, some es => some (e :: es)
+    | _, _ => none
+
+/-- the schemas as they are now, the schema each frame was made over, and the single entries of the two result
+caches (`single_item_cache`, tools.py:417-455: one entry for all frames, compared by the frame object):
+`kept` around `description` (used only when `descRead = .keptPerFrame`) and `keptNames` around `column_names`
+(used when `namesRead = .keptPerFrame`, which is what the source says now). -/
+structure Sess where
+  schemas : List (List Col)
+  frames : List Nat := []
+  kept : Option (Nat × List Entry) := none
+  keptNames : Option (Nat × List Str) := none
+  deriving Repr, DecidableEq
+
+/-- `frame_k.column_names` under a read mode, for a frame whose schema holds `cols` now. -/
+def Sess.names (nmode : ReadMode) (s : Sess) (k : Nat) (cols : List Col) : List Str :=
+  match nmode, s.keptNames with
+  | .keptPerFrame, some (k', ns) => if k' = k then ns else cols.map (·.name)
+  | _, _ => cols.map (·.name)
+
+/-- the body of `description` run on frame `k`: the names (kept or current), then one entry per name from the
+schema the frame refers to, as it is now; `none` when it raises.  Also the `column_names` cache afterwards. -/
+def Sess.compute (nmode : ReadMode) (s : Sess) (k : Nat) : Sess × Option (List Entry) :=
+  match (s.frames[k]?).bind (fun j => s.schemas[j]?) with
+  | none => (s, none)
+  | some cols =>
+    let ns := s.names nmode k cols
+    ({ s with keptNames := match nmode with | .keptPerFrame => some (k, ns) | .fresh => s.keptNames },
+     describeNames descLookup cols 0 ns)
+
+/-- `frame_k.description` under the read modes of `description` and `column_names`: a kept answer for the same
+frame is returned as it is; otherwise the list is computed and (in the keeping mode) kept; an exception is not
+kept. -/
+def Sess.read (mode nmode : ReadMode) (s : Sess) (k : Nat) : Sess × Option (List Entry) :=
+  let hit : Option (List Entry) :=
+    match mode, s.kept with
+    | .keptPerFrame, some (k', es) => if k' = k then some es else none
+    | _, _ => none
+  match hit with
+  | some es => (s, some es)
+  | none =>
+    match s.compute nmode k with
+    | (s', none) => (s', none)
+    | (s', some es) =>
+      match mode with
+      | .fresh => (s', some es)
+      | .keptPerFrame => ({ s' with kept := some (k, es) }, some es)
+
+def Sess.step (mode nmode : ReadMode) (s : Sess) : SOp → Sess × List (Option (List Entry))
+  | .frame j => ({ s with frames := s.frames ++ [j] }, [])
+  | .read k => ((s.read mode nmode k).1, [(s.read mode nmode k).2])
+  | .redeclare j i d => ({ s with schemas := setSchemaAt s.schemas j i d }, [])
+  | .rename j i n => ({ s with schemas := setSchemaNameAt s.schemas j i n }, [])
+
+/-- what the reads of a session return, in order. -/
+def Sess.run (mode nmode : ReadMode) : Sess → List SOp → List (Option (List Entry))
+  | _, [] => []
+  | s, op :: ops => (s.step mode nmode op).2 ++ Sess.run mode nmode (s.step mode nmode op).1 ops
+
+/-- a session on the code as it is now (`descRead`, `namesRead`: read from the source on every run). -/
+def session (s : Sess) (ops : List SOp) : List (Option (List Entry)) := Sess.run descRead namesRead s ops
+
+/-- the specification of a session: every read is `description` of the schema *as it is at that read*. -/
+def currentReads : List (List Col) → List Nat → List SOp → List (Option (List Entry))
+  | _, _, [] => []
+  | S, fr, .frame j :: ops => currentReads S (fr ++ [j]) ops
+  | S, fr, .read k :: ops => ((fr[k]?).bind fun j => (S[j]?).bind describe) :: currentReads S fr ops
+  | S, fr, .redeclare j i d :: ops => currentReads (setSchemaAt S j i d) fr ops
+  | S, fr, .rename j i n :: ops => currentReads (setSchemaNameAt S j i n) fr ops
+
+/-- an entry without its name: type code, precision, scale. -/
+def Entry.bare (e : Entry) : Str × Option Nat × Option Nat := (e.code, e.precision, e.scale)
+
+/-- the reads of a session without the names of the entries. -/
+def bareReads (rs : List (Option (List Entry))) : List (Option (List (Str × Option Nat × Option Nat))) :=
+  rs.map (fun r => r.map (fun es => es.map Entry.bare))
+
+/-- does a reported type code resolve back to the type a well-formed name declares (base type, DECIMAL
+precision and scale, element type; the width is not part of a type code)? -/
+def codeResolvesTo (t : TName) (code : Str) : Bool :=
+  match fromName code with
+  | .error _ => false
+  | .ok d =>
+    match t with
+    | .base m => d.ty == .member m
+    | .decimal p s => d.ty == .member litDecimal && d.precision == some p && d.scale == some s
+    | .varchar _ => d.ty == .member litVarchar
+    | .blob _ => d.ty == .member litBlob
+    | .array e => d.ty == .member litArray && d.elem == some e
+
 end TypeName
